@@ -127,6 +127,8 @@ fn(SS + "pop", cls="ASet", props=["C50"], types={"member": "v"}, raises={"KeyErr
             "forall(lambda x: implies(x is not result, " + HASV.replace("XX", "x") + " == old(" + HASV.replace("XX", "x") + ")))"],
    modifies=["contents(self.col)"])
 fn(A + "_AssociationCollection.__len__#set", cls="ASet", props=["C50"], returns="int", ensures=["result == len(seq(self.col))"], modifies=[])
+fn(SS + "clear", cls="ASet", props=["C50"], returns="none", ensures=["len(seq(self.col)) == 0", "forall(lambda m: not (m in self.col))"],
+   modifies=["contents(self.col)"])
 fn(SS + "__bool__", cls="ASet", props=["C50"], returns="bool", ensures=["result == (len(seq(self.col)) != 0)"], modifies=[])
 # in-place difference with another set: every value goes through discard()  (`|=` through add() stays in the bounded complement: the
 # invariant's equivalence over the view does not discharge within the solver budget)
